@@ -354,8 +354,8 @@ var opKinds = []struct {
 	k string
 	w int
 }{
-	{"setstate", 10}, {"addbal", 5}, {"subbal", 4}, {"touch", 2}, {"setnonce", 3}, {"setcode", 3}, {"create", 3}, {"newacc", 2},
-	{"suicide", 3}, {"addrefund", 2}, {"subrefund", 2}, {"log", 2}, {"aladdr", 2}, {"alslot", 2}, {"prepal", 1},
+	{"setstate", 14}, {"addbal", 5}, {"subbal", 4}, {"touch", 4}, {"setnonce", 3}, {"setcode", 3}, {"create", 3}, {"newacc", 2},
+	{"suicide", 2}, {"addrefund", 2}, {"subrefund", 2}, {"log", 2}, {"aladdr", 2}, {"alslot", 2}, {"prepal", 1},
 	{"snapshot", 7}, {"revert", 6}, {"finalise", 5}, {"block", 2}, {"read", 2},
 }
 
@@ -377,8 +377,14 @@ func genOp(c chooser, r *opsRun) Op {
 		}
 		o := Op{K: kind}
 		switch kind {
-		case "create", "suicide", "aladdr", "touch", "prepal":
+		case "create", "suicide", "aladdr", "prepal":
 			o.A = c.Int(0, len(opAddrs)-1, "a")
+		case "touch":
+			// half of the zero-value credits go to the RIPEMD precompile (its touch survives reverts)
+			o.A = c.Int(0, 2*len(opAddrs)-1, "a")
+			if o.A >= len(opAddrs) {
+				o.A = 4
+			}
 		case "addbal", "newacc":
 			o.A = c.Int(0, len(opAddrs)-1, "a")
 			o.V = pick(c, opAmount, "amt")
